@@ -53,6 +53,7 @@ type Result struct {
 	ShowOut    string   // stdout of wire show for this case's packages (normalised)
 	ShowDiags  []string
 	ShowRan    bool
+	ShowOuts   map[string]string // stdout of wire show under each extra variant (e.g. iteration-order schedules)
 	TreeChangedBy string // a read-only command that changed the case's directory
 	NotRun     bool        // skipped by fail-fast
 	Judged     bool
@@ -111,6 +112,7 @@ type Runner struct {
 	AlsoTagged  bool // additionally build and run the drivers with -tags wireinject (the templates instead of wire_gen.go)
 	AlsoCheck   bool // additionally run `wire check ./...` on the same tree
 	AlsoShow    bool // additionally run `wire show ./...` on the same tree
+	ShowVariants []ShowVariant // further runs of wire show (another binary and/or environment); outputs in Result.ShowOuts
 	ExtraGen   []string // extra args for wire gen (before patterns)
 	Cmd        string   // wire subcommand (default gen)
 
@@ -450,6 +452,13 @@ func attributeByPath(stderr string) (map[string][]string, []string) {
 
 func dirHash(dir string) string { return ReadTree(dir).Hash() }
 
+// ShowVariant is one more way of running wire show on every batch.
+type ShowVariant struct {
+	Name string
+	Wire string
+	Env  []string
+}
+
 // runReadOnly runs wire check / wire show on the batch and attributes their output.
 func (rn *Runner) runReadOnly(mod string, results []*Result, forceSolo bool) {
 	norm := func(s, dir string) string {
@@ -462,12 +471,24 @@ func (rn *Runner) runReadOnly(mod string, results []*Result, forceSolo bool) {
 	for _, r := range results {
 		byDir[r.Case.Dir] = r
 	}
-	for _, sub := range []string{"check", "show"} {
-		if (sub == "check" && !rn.AlsoCheck) || (sub == "show" && !rn.AlsoShow) {
-			continue
+	type roPass struct {
+		sub, name, bin string
+		env            []string
+	}
+	var passes []roPass
+	if rn.AlsoCheck {
+		passes = append(passes, roPass{"check", "", rn.S.Wire, rn.wireEnv()})
+	}
+	if rn.AlsoShow {
+		passes = append(passes, roPass{"show", "", rn.S.Wire, rn.wireEnv()})
+		for _, v := range rn.ShowVariants {
+			passes = append(passes, roPass{"show", v.Name, v.Wire, append(append([]string{}, rn.wireEnv()...), v.Env...)})
 		}
+	}
+	for _, pass := range passes {
+		sub := pass.sub
 		before := dirHash(mod)
-		res := RunLimited(mod, rn.wireEnv(), rn.GenTimeout, WireMemKB, rn.S.Wire, sub, "./...")
+		res := RunLimited(mod, pass.env, rn.GenTimeout, WireMemKB, pass.bin, sub, "./...")
 		rn.mu.Lock()
 		rn.WireRuns++
 		rn.mu.Unlock()
@@ -487,7 +508,7 @@ func (rn *Runner) runReadOnly(mod string, results []*Result, forceSolo bool) {
 		if soloAll {
 			for _, r := range results {
 				b := dirHash(filepath.Join(mod, r.Case.Dir))
-				sr := RunLimited(mod, rn.wireEnv(), rn.SoloTimeout, WireMemKB, rn.S.Wire, sub, "./"+r.Case.Dir+"/...")
+				sr := RunLimited(mod, pass.env, rn.SoloTimeout, WireMemKB, pass.bin, sub, "./"+r.Case.Dir+"/...")
 				rn.mu.Lock()
 				rn.WireRuns++
 				rn.mu.Unlock()
@@ -511,6 +532,11 @@ func (rn *Runner) runReadOnly(mod string, results []*Result, forceSolo bool) {
 				}
 				if sub == "check" {
 					r.CheckRan, r.CheckDiags = true, diags
+				} else if pass.name != "" {
+					if r.ShowOuts == nil {
+						r.ShowOuts = map[string]string{}
+					}
+					r.ShowOuts[pass.name] = norm(sr.Stdout, r.Case.Dir)
 				} else {
 					r.ShowRan, r.ShowDiags, r.ShowOut = true, diags, norm(sr.Stdout, r.Case.Dir)
 				}
@@ -549,6 +575,11 @@ func (rn *Runner) runReadOnly(mod string, results []*Result, forceSolo bool) {
 			}
 			if sub == "check" {
 				r.CheckRan, r.CheckDiags = true, diags
+			} else if pass.name != "" {
+				if r.ShowOuts == nil {
+					r.ShowOuts = map[string]string{}
+				}
+				r.ShowOuts[pass.name] = norm(showBy[r.Case.Dir], r.Case.Dir)
 			} else {
 				r.ShowRan, r.ShowDiags, r.ShowOut = true, diags, norm(showBy[r.Case.Dir], r.Case.Dir)
 			}
